@@ -58,6 +58,10 @@ const (
 	Tricky = "transfer/channel-3"
 	// A Noble-side voucher (an asset that reached Noble over IBC and was sent out again).
 	IBCVoucher = "ibc/27394FB092D2ECCD56123C74F36E4C1F926001CEADA9CA97EA622B25F41E5EB2"
+	// OddDenom uses every character class a bank denomination may contain besides '/'.
+	OddDenom = "A0:b.c_d-E"
+	// LongDenom has the maximum length of a bank denomination (128).
+	LongDenom = "uxxxxxxxxxxxxxxxxxxxxxxxxxxxxxxxxxxxxxxxxxxxxxxxxxxxxxxxxxxxxxxxxxxxxxxxxxxxxxxxxxxxxxxxxxxxxxxxxxxxxxxxxxxxxxxxxxxxxxxxxxxxxxxx"
 
 	NumChannels      = 4
 	CounterpartyPort = "transfer"
@@ -74,7 +78,7 @@ var (
 	// Denominations that have a Hyperlane collateral token.
 	HypDenoms = []string{Uusdc, Ufoo, Uhuge}
 	// All denominations held by the channel escrows.
-	EscrowDenoms = []string{Uusdc, Ufoo, Gamm, Tricky, IBCVoucher}
+	EscrowDenoms = []string{Uusdc, Ufoo, Gamm, Tricky, IBCVoucher, OddDenom, LongDenom}
 
 	OrbiterAddr = core.ModuleAddress
 	DustAddr    = authtypes.NewModuleAddress(core.DustCollectorName)
@@ -443,6 +447,26 @@ func (w *World) setupHyperlane() error {
 		}
 	}
 	return nil
+}
+
+// HypRouter enrolls or unenrolls the remote router of a collateral token for a domain, through
+// the warp module's own messages, signed by the token owner.
+func (w *World) HypRouter(ctx sdk.Context, tokenID []byte, domain uint32, enroll bool) TxResult {
+	owner := Addr("hyp-owner").String()
+	var id hyputil.HexAddress
+	copy(id[:], tokenID)
+	if enroll {
+		return w.Tx(ctx, &warptypes.MsgEnrollRemoteRouter{
+			Owner:   owner,
+			TokenId: id,
+			RemoteRouter: &warptypes.RemoteRouter{
+				ReceiverDomain:   domain,
+				ReceiverContract: hyputil.HexAddress(sha256.Sum256([]byte(fmt.Sprintf("router-%d", domain)))).String(),
+				Gas:              sdkmath.ZeroInt(),
+			},
+		})
+	}
+	return w.Tx(ctx, &warptypes.MsgUnrollRemoteRouter{Owner: owner, TokenId: id, ReceiverDomain: domain})
 }
 
 func unpackResp(res *sdk.Result, into codecProtoMessage) error {
